@@ -1287,6 +1287,24 @@ def call_ext(interp, dotted: str, args: List[V], kwargs: Dict[str, V], node, cc)
             # rows of the result are copies of the array: the NEW axis is the outer one
             return Term("bcast_rows", [args[0], shp.items[0]])
         return Term("broadcast_to", args, kwargs)
+    if d == "numpy.unravel_index" and len(args) == 2 and isinstance(args[1], TupleV) and all(isinstance(x, Num) for x in args[1].items):
+        # C order: the last axis runs fastest.  idx_k = (p div (d_{k+1}*...*d_last)) mod d_k, written with nested div so that
+        # x div m * m + x mod m can be recognised as x; the first axis is not reduced (numpy raises for indices out of bounds)
+        idx = args[0]
+        if isinstance(idx, ObjV) and idx.ext == "ndarray":
+            idx = ndarray_value(interp, idx)
+        dims_ = [x.p for x in args[1].items]
+        if isinstance(idx, (Grid, Num)):
+            outs = []
+            for k in range(len(dims_)):
+                def f(p_, k=k):
+                    q = p_
+                    for dlast in reversed(dims_[k + 1:]):
+                        q = Poly.app("div", q, dlast)
+                    return q if k == 0 else Poly.app("mod", q, dims_[k])
+                outs.append(_map_elem(interp, idx, f, "unravel"))
+            return TupleV(outs)
+        return Term("unravel_index", args, kwargs)
     if d == "numpy.sort":
         return Term("sort", args, kwargs)
     if d == "numpy.unique":
